@@ -159,6 +159,7 @@ def run(ctx, R):
                              "%s classifies position against length as %s; the oracle is %s" % (short(p), tbl, want), F.where(p))
         R.floor("position-vs-length classifications", n_cls, 3)
         lines_follow_consumed_newlines(F, R, tag)
+        layout_then_eof(F, R, tag)
 
 
 def lines_follow_consumed_newlines(F, R, tag):
@@ -189,3 +190,23 @@ def lines_follow_consumed_newlines(F, R, tag):
                  "%s takes a character out of the stream without adding a consumed '\\n' to lines_read: after four get_char/2 calls on \"a\\nb\\nc\\n\" the position property "
                  "is position_and_lines_read(4,0), and the line numbers of later syntax errors on that stream are off" % name, F.where(fn))
     R.floor("character-level consuming reads", n, 3)
+
+
+def layout_then_eof(F, R, tag):
+    """Text written with write/nl and read back with read_term ends in layout (the newline after the last end token, blank
+    lines, a comment). Reading past the last term must answer end_of_file. error_after_read_term turns an end of input
+    into syntax_error(incomplete_reduction) when the lexer's location has moved since the read began — but layout moves
+    it too, so the decision must also rest on what the lexer saw (only layout before the end, or the start of a token)."""
+    fn = [p for p in F.items if p.endswith("read::error_after_read_term")]
+    if len(fn) != 1:
+        raise AnchorLost("read::error_after_read_term (%d)" % len(fn))
+    body = F.hir(fn[0])["body"]
+    ifs = [n for n in walk(body) if n["k"] == "If" and any(x["k"] == "MethodCall" and x["name"] == "incomplete_reduction" for x in walk(n["then"]))]
+    if not ifs:
+        raise AnchorLost("error_after_read_term: the branch that answers incomplete_reduction")
+    outer = ifs[0]
+    fields = {x["name"] for n in ifs for x in walk(n["cond"]) if x["k"] == "Field"} | {x["name"] for n in ifs for x in walk(n["cond"]) if x["k"] == "MethodCall"}
+    beyond_location = fields - {"location", "line", "column", "lexer", "is_unexpected_eof"}
+    R.ob("C19:read_term:layout-before-end-of-input-is-end_of_file%s" % tag, bool(beyond_location),
+         "error_after_read_term decides between end_of_file and syntax_error(incomplete_reduction) from the lexer's location alone (%s): after `a.` a blank line, trailing "
+         "blanks or a comment make the next read raise a syntax error instead of answering end_of_file" % sorted(fields), F.where(fn[0]))
